@@ -69,6 +69,10 @@ pub struct ClientScript {
     /// is sent 30 ms after the Close frame (nothing may be dispatched for a client after its close)
     #[serde(default)]
     pub after_close: u8,
+    /// ending "silent": what the client has sent of a further message when it vanishes: 0 nothing,
+    /// 1 a complete non-final fragment, 2 the first three bytes of a frame
+    #[serde(default)]
+    pub partial_before_silence: u8,
 }
 
 #[derive(Serialize, Deserialize, Clone, Debug)]
@@ -122,6 +126,22 @@ struct ClientOut {
     ended_at: u64,
     close_sent_at: Option<u64>,
     finished: bool,
+}
+
+/// A client that vanishes in the middle of a message: every failure of such a run is reported as
+/// one class.
+fn collapse_mid_message(scn: &Scn, rr: &mut RunResult) {
+    if scn.clients.iter().any(|c| c.ending == "silent" && c.partial_before_silence > 0) {
+        rr.count("c12.silent_mid_message_endings", 1);
+        if !rr.violations.is_empty() {
+            let mut all: Vec<String> = rr.violations.iter().map(|v| format!("{} {}", v.rule, v.sig.split(':').next().unwrap_or(""))).collect();
+            all.sort();
+            all.dedup();
+            let first = rr.violations[0].detail.clone();
+            rr.violations.clear();
+            rr.violate("C12/R8", "client-silent-mid-message-stalls-the-poll-loop", format!("a client sent part of a message and went silent (heartbeat on); consequences in this run: {:?}; first: {}", all, first));
+        }
+    }
 }
 
 fn frame_bytes(opcode: u8, payload: &[u8], fin: bool, k: u32) -> Vec<u8> {
@@ -356,6 +376,12 @@ fn run_client(cid: usize, sc: ClientScript, server: SocketAddr, out: Arc<Mutex<C
         }
         "silent" => {
             out.lock().unwrap().close_sent_at = Some(sim::decision_index());
+            if sc.partial_before_silence > 0 {
+                // the client vanishes in the middle of a message (never completed, never owed)
+                let whole = frame_bytes(1, format!("Pc{}-never-completed", cid).as_bytes(), false, 4242);
+                let _g = wlock.lock().unwrap();
+                let _ = s.write_all(if sc.partial_before_silence == 1 { &whole[..] } else { &whole[..3] });
+            }
             silent.store(true, Ordering::SeqCst);
             s.sim_go_silent();
             // keep the socket (a partitioned peer does not close)
@@ -380,11 +406,11 @@ impl Prop for C12 {
     fn runs(&self, tier: Tier) -> u64 {
         match tier {
             Tier::Quick => 40_000,
-            Tier::Thorough => 1_500_000,
+            Tier::Thorough => 800_000,
         }
     }
     fn rule(&self) -> &'static str {
-        "One case = 1..8 reference clients each running a script over {connect at a time, send text/binary messages (possibly fragmented, with all fragments in one write or 1..40 ms apart so that a message is spread over several polls; bursts of several within one poll interval, now and then 1200 in one write; plain, asking the handler for a unicast reply, asking for a broadcast), ping, sleep} and ending by Close frame (sometimes followed by a data frame, which must not be dispatched), abrupt FIN, closing the socket outright (server writes to it then fail), going silent (partition, with heartbeat on) or staying connected; an external AsyncSender thread issuing unicasts and broadcasts (3..60 KB ones when a slow-reading client with a 600..4000-byte receive window is present) at scripted virtual times; handler pools of 1..8 threads; poll interval none / 1..10 ms; heartbeat off or (interval, timeout); linked and unlinked construction; then the shutdown signal. All under one seeded schedule (random / sticky / PCT / round-robin) of the poll loop, the pool, the front App and the clients. Distinct = distinct event-log shape (per client: connect / message count / disconnect, order class) plus configuration; non-trivial = at least two clients or one client with at least two messages, and at least one server-side send."
+        "One case = 1..8 reference clients each running a script over {connect at a time, send text/binary messages (possibly fragmented, with all fragments in one write or 1..40 ms apart so that a message is spread over several polls; bursts of several within one poll interval, now and then 1200 in one write; plain, asking the handler for a unicast reply, asking for a broadcast), ping, sleep} and ending by Close frame (sometimes followed by a data frame, which must not be dispatched), abrupt FIN, closing the socket outright (server writes to it then fail), going silent (partition, with heartbeat on; one time in twenty in the middle of a message: after a non-final fragment or three bytes into a frame) or staying connected; an external AsyncSender thread issuing unicasts and broadcasts (3..60 KB ones when a slow-reading client with a 600..4000-byte receive window is present) at scripted virtual times; handler pools of 1..8 threads; poll interval none / 1..10 ms; heartbeat off or (interval, timeout); linked and unlinked construction; then the shutdown signal. All under one seeded schedule (random / sticky / PCT / round-robin) of the poll loop, the pool, the front App and the clients. Distinct = distinct event-log shape (per client: connect / message count / disconnect, order class) plus configuration; non-trivial = at least two clients or one client with at least two messages, and at least one server-side send."
     }
     fn assumptions(&self) -> Vec<String> {
         vec![
@@ -397,7 +423,7 @@ impl Prop for C12 {
         ]
     }
     fn expected_counters(&self) -> Vec<&'static str> {
-        vec!["c12.clients", "c12.messages_sent", "c12.fragmented", "c12.fragments_spread_over_polls", "c12.bursts", "c12.burst_of_over_1000_messages", "c12.unicast_replies", "c12.handler_broadcasts", "c12.external_sends", "c12.close_endings", "c12.fin_endings", "c12.data_after_close", "c12.drop_endings", "c12.silent_endings", "c12.close_near_timeout_endings", "c12.heartbeat_on", "c12.linked", "c12.unlinked", "c12.single_handler_thread", "c12.slow_reader", "c12.no_poll_interval", "net.silent_peer"]
+        vec!["c12.clients", "c12.messages_sent", "c12.fragmented", "c12.fragments_spread_over_polls", "c12.bursts", "c12.burst_of_over_1000_messages", "c12.unicast_replies", "c12.handler_broadcasts", "c12.external_sends", "c12.close_endings", "c12.fin_endings", "c12.data_after_close", "c12.drop_endings", "c12.silent_endings", "c12.silent_mid_message_endings", "c12.close_near_timeout_endings", "c12.heartbeat_on", "c12.linked", "c12.unlinked", "c12.single_handler_thread", "c12.slow_reader", "c12.no_poll_interval", "net.silent_peer"]
     }
     fn real_vs_stub(&self) -> (Vec<&'static str>, Vec<&'static str>) {
         (vec!["AsyncWebsocketApp::run, AsyncStream/AsyncSender, async_websocket_handler + handshake, WebsocketStream::recv_nonblocking/send/ping, ThreadPool, App"], vec!["threads, Mutex/mpsc, sleep, Instant, TCP, the streams HashMap's hasher (humsim)", "clients are harness reference RFC 6455 implementations"])
@@ -432,7 +458,7 @@ impl Prop for C12 {
                 6 if heartbeat.is_some() => "close-near-timeout",
                 _ => "stay",
             };
-            clients.push(ClientScript { start_ms: [0u64, 0, 3, 20, 100][rng.usize_below(5)], steps, ending: ending.into(), near_us: rng.below(24_000) as i64 - 4_000, window: None, read_pause_ms: 0, after_close: 0 });
+            clients.push(ClientScript { start_ms: [0u64, 0, 3, 20, 100][rng.usize_below(5)], steps, ending: ending.into(), near_us: rng.below(24_000) as i64 - 4_000, window: None, read_pause_ms: 0, after_close: 0, partial_before_silence: 0 });
         }
         let next = rng.range(0, 3) as usize;
         let mut external: Vec<Ext> = (0..next).map(|_| Ext { at_ms: [5u64, 30, 150, 600][rng.usize_below(4)], to: if rng.chance(1, 2) { None } else { Some(rng.usize_below(nclients)) }, size: 0 }).collect();
@@ -492,11 +518,18 @@ impl Prop for C12 {
             let at = rng4.usize_below(clients[k].steps.len() + 1);
             clients[k].steps.insert(at, Step { op: "msg".into(), kind: "plain".into(), binary: false, frags: 0, burst: 1200, ms: 0, frag_gap_ms: 0 });
         }
+        // one silent ending in three happens in the middle of a message
+        for c in clients.iter_mut() {
+            if c.ending == "silent" && !big_burst && rng4.chance(1, 20) {
+                c.partial_before_silence = 1 + rng4.below(2) as u8;
+            }
+        }
+        let stalls = clients.iter().any(|c| c.partial_before_silence > 0);
         let mut sim = SimParams::draw(&mut rng, true);
         sim.short_write_permille = 0;
         sim.rx_capacity = None;
         sim.cpu_tick_max_ns = Some(2000);
-        sim.max_decisions = 1_500_000;
+        sim.max_decisions = if stalls { 100_000 } else { 1_500_000 };
         let linked = rng.chance(1, 2);
         let handler_threads = [1usize, 1, 2, 4, 8][rng.usize_below(5)];
         let mut poll_ms = [1u64, 2, 5, 10, 10][rng.usize_below(5)];
@@ -719,6 +752,7 @@ impl Prop for C12 {
             ref s => {
                 let sig = if run_returned.lock().unwrap().is_none() { format!("run-did-not-return-after-shutdown:{:?}", s) } else { format!("run-ended:{:?}", s) };
                 rr.violate("C12/R7", sig, format!("{:?}; threads {:?}", s, outcome.threads.iter().filter(|t| t.state != "finished").map(|t| format!("{}:{}", t.name, t.op)).take(12).collect::<Vec<_>>()));
+                collapse_mid_message(&scn, &mut rr);
                 return rr;
             }
         }
@@ -881,6 +915,10 @@ impl Prop for C12 {
         if (scn.clients.len() >= 2 || total_msgs >= 2) && server_sends >= 1 {
             rr.shapes.push(fnv64(format!("{}|{}", shape, cfg).as_bytes()));
         }
+        // A client that vanishes in the middle of a message: every failure of such a run is
+        // reported as one class (the poll loop reads the rest of a started message with blocking
+        // reads, so everything else in the run is a consequence of that one stall).
+        collapse_mid_message(&scn, &mut rr);
         rr.sample = Some(json!({"config": cfg, "clients": scn.clients.iter().map(|c| format!("start {} ms, {} steps, ending {}", c.start_ms, c.steps.len(), c.ending)).collect::<Vec<_>>(), "event_log": log.iter().take(40).map(|e| match e { Ev::Connect(a, s) => format!("#{} connect {}", s, a), Ev::Message(a, b, s) => format!("#{} message {} {}", s, a, show_bytes(b)), Ev::Disconnect(a, s) => format!("#{} disconnect {}", s, a) }).collect::<Vec<_>>(), "external": ext.iter().map(|(s, p, to)| format!("#{} {} to {:?}", s, show_bytes(p), to)).collect::<Vec<_>>()}));
         rr
     }
